@@ -74,8 +74,10 @@ Base(slot, s) ==
          X |-> [T("INPUT_OBJECT") EXCEPT !.inputFields = Ext(Ext(EmptyFn, "x", inX), "y", Arg(NNull(Named("Int")), [k |-> "int", v |-> "1"]))]],
       query |-> "Query", mutation |-> "", subscription |-> ""]
 
-DescSlots  == {"typeDesc", "fieldDesc", "argDesc", "valueDesc", "inputDesc"}
-OtherSlots == {"fieldReason", "argReason", "valueReason", "inputReason", "argDefault", "inputDefault", "specifiedBy"}
+\* texts of up to 2 atoms go into every slot; longer ones into one slot per printer and indentation level
+DescSlots  == IF n <= 2 THEN {"typeDesc", "fieldDesc", "argDesc", "valueDesc", "inputDesc"} ELSE {"typeDesc", "argDesc"}
+OtherSlots == IF n <= 2 THEN {"fieldReason", "argReason", "valueReason", "inputReason", "argDefault", "inputDefault", "specifiedBy"}
+              ELSE {"valueReason", "argDefault", "specifiedBy"}
 Opts(single, indent, spec) ==
   [sorted_fields |-> FALSE, sorted_arguments |-> FALSE, sorted_enum_items |-> FALSE, federation |-> FALSE,
    prefer_single_line_descriptions |-> single, include_specified_by |-> spec, compose_directive |-> FALSE, indent |-> indent]
